@@ -6,5 +6,5 @@ import bolt "go.etcd.io/bbolt"
 type Sched struct{}
 
 func (s *Sched) Lock(db *bolt.DB, which int, exclusive bool, try func() bool) {}
-func (s *Sched) Yield(db *bolt.DB, point string)                             {}
-func (s *Sched) OnceEnter(db *bolt.DB, seq int, busy func() bool)            {}
+func (s *Sched) Yield(db *bolt.DB, point string)                              {}
+func (s *Sched) OnceEnter(db *bolt.DB, seq int, busy func() bool)             {}
